@@ -5,7 +5,10 @@ namespace Driver.Snow
 open HyperModel.Snow
 
 def b01 (b : Bool) : String := if b then "1" else "0"
-def fBlk (b : Blk) : String := s!"B({b.id},{b.parent},{b.height},{b01 b.invalid})"
+def fBlk (b : Blk) : String :=
+  match b.pctx with
+  | none => s!"B({b.id},{b.parent},{b.height},{b01 b.invalid})"
+  | some c => s!"B({b.id},{b.parent},{b.height},{b01 b.invalid},c{c})"
 def fSt (l : List Nat) : String := if l.isEmpty then "-" else ".".intercalate (l.map toString)
 def fOut : Option Out → String
   | none => "nil"
@@ -42,12 +45,19 @@ def st? (s : String) : Option (List Nat) :=
 
 def blk? (a b c d : String) : Option Blk := do
   let id ← nat? a; let p ← nat? b; let h ← nat? c; let i ← bool? d
-  pure ⟨id, p, h, i⟩
+  pure ⟨id, p, h, i, none⟩
+
+def blkc? (a b c d e : String) : Option Blk := do
+  let b ← blk? a b c d; let k ← nat? e
+  pure { b with pctx := some k }
 
 def op? : List String → Option Op
-  | ["build", n] => (nat? n).map .build
+  | ["build", n] => (nat? n).map (.build · none)
+  | ["buildc", n, k] => do let n ← nat? n; let k ← nat? k; pure (.build n (some k))
   | ["parse", a, b, c, d] => (blk? a b c d).map .parse
-  | ["verify", h] => (nat? h).map .verify
+  | ["parsec", a, b, c, d, k] => (blkc? a b c d k).map .parse
+  | ["verify", h] => (nat? h).map (.verify · none)
+  | ["verifyc", h, k] => do let h ← nat? h; let k ← nat? k; pure (.verify h (some k))
   | ["accept", h] => (nat? h).map .accept
   | ["reject", h] => (nat? h).map .reject
   | ["pref", i] => (nat? i).map .pref
@@ -94,7 +104,7 @@ def step (st : St) (ws : List String) : St × String :=
       let (s', r) := HyperModel.Snow.step y.s op
       let y' : Sys := ⟨s', y.e.upd y.s op r⟩
       let objInfo := match op with
-        | .verify h | .accept h | .reject h => if h < s'.nobj then " " ++ fObj (s'.obj h) else ""
+        | .verify h _ | .accept h | .reject h => if h < s'.nobj then " " ++ fObj (s'.obj h) else ""
         | .fin => match y.s.inflight with | some (h, _) => " " ++ fObj (s'.obj h) | none => ""
         | .start _ => if r == .ok then s!" h={s'.lastAccepted}" else ""
         | .finish _ _ => if r == .ok then s!" h={s'.lastAccepted} {fObj (s'.obj s'.lastAccepted)}" else ""
